@@ -14,8 +14,12 @@ Leg R  an edge cover of the explored graph (canonical revalidation) as stimulus 
        validated by TLC against PoolTrace.tla.
 Leg T  seeded random histories (forks up to 3 blocks deep, blocks that confirm a prefix of the pool,
        confirm a conflicting transaction or leave the pool alone, several reorgs between two looks
-       at the pool, blocks mined from the pool and adopted); thorough: histories that fill the pool
-       to its 20 M weight limit with 1 MB transactions."""
+       at the pool, blocks mined from the pool and adopted); in BOTH tiers histories with heavy sets
+       (1.9 MB transactions, v1 and v2) against a small pool: a REJECTED set whose valid prefix weighs
+       as much as the pool may hold must leave no weight behind (nothing is evicted), an ACCEPTED set
+       just below the limit evicts nothing, only pooled transactions reaching the limit permit
+       evictions -- the spec recomputes `Full` from the pooled transactions' real weights; thorough
+       also: histories that fill the pool to its 20 M weight limit with 1 MB transactions."""
 import os, json, random, time
 import vlib
 from vlib import log
@@ -38,12 +42,12 @@ def run(tier):
     q = tier == "quick"
     res = P.parallel({
         "m1": lambda: P.leg_m(wd, "Pool_pool_mc.cfg", scfile, "pool family, permissive Revalidate (ideal rules)", timeout=1500, workers=4),
-        "m2": lambda: P.leg_m(wd, "Pool_pool_full.cfg", fullfile, "pool-full path, MaxPool = 3 (ideal rules)", workers=2),
+        "m2": lambda: P.leg_m(wd, "Pool_pool_full.cfg", fullfile, "pool-full path and heavy sets, maxpool = 3 (ideal rules)", workers=2),
         "p": lambda: P.probe(wd, "Pool_dev_ephdrop.cfg", scfile, "DevEphDrop", ["RetentionStrict"], "probe_ephdrop"),
         "r": lambda: P.leg_r(wd, binary, PROP, "Pool_pool_edges.cfg", scens, "pool", rng, verdict, devs, accept=acc,
                              max_paths=(320 if q else None), max_len=40),
         "t": lambda: P.leg_t(wd, binary, PROP, "c05", verdict, devs, histories=(80 if q else 900), steps=(45 if q else 70), accept=acc,
-                             extra_env=({} if q else {"VERIF_FAT": 4}), timeout=3000),
+                             extra_env=({"VERIF_HEAVY": 4} if q else {"VERIF_FAT": 4, "VERIF_HEAVY": 16}), timeout=3000),
     })
     ms, rr, tt = [res["m1"], res["m2"]], [res["r"]], res["t"]
     probes = {"DevEphDrop breaks RetentionStrict": res["p"]}
@@ -52,10 +56,10 @@ def run(tier):
     rc = verdict.finish()
     P.evidence(PROP, tier, ms, probes, rr, tt, t0, verdict,
                "family pool: fork trees of %d and 6 blocks with bodies that confirm a parent, its child, a conflicting transaction and a v1 transaction; "
-               "11 + 5 candidate sets incl. stale bases; Revalidate fully permissive; eviction with MaxPool = 3" % (len(scens[0]["parent"])),
+               "11 + 5 candidate sets incl. stale bases; Revalidate fully permissive; eviction with maxpool = 3 incl. heavy rejected / accepted sets against a small pool (Full = sum of the pooled weights)" % (len(scens[0]["parent"])),
                ["retention is tracked for siacoin transactions whose validity does not depend on the height reached (no maturity delay, no contracts); "
                 "a transaction of an accepted set that is already known is protected like the new ones",
-                "the pool counts as full (any eviction allowed) when the weight held before the query reaches 95% of 10 x MaxBlockWeight"])
+                "the pool counts as full (any eviction allowed) exactly when the POOLED transactions (last report + accepted since) weigh >= 10 x MaxBlockWeight; blocks applied under the pool do not reduce that sum before the next report (the code evicts before it drops confirmed transactions)"])
     return rc
 
 
